@@ -21,6 +21,26 @@ CHECKS = {
                 'specification rows in nixsa/rules/r_ver.py and r_hdr.py. Assumes LocID::hasAttr/getAttr report the attribute '
                 'state faithfully (they are opaque booleans in the abstraction).',
     },
+    'C09': {
+        'technique': 'static analysis: decision-table extraction + abstract interpretation (boolean abstraction, all paths) of '
+                     'File::open / FileHDF5 constructor / checkHeader; dominance rule for absence-guarded writes; error-result '
+                     'consumption rule over all HDF5 call sites',
+        'text': 'Decides structural necessary conditions of C09 on every path: FileMode->H5F_ACC_* table, create/open branch and '
+                'the flag reaching H5Fcreate/H5Fopen per (mode, exists), createHeader only when creating, checkHeader(mode,!Force) on '
+                'every open, header verdict specification (missing/wrong format, missing version, missing id refused), ReadOnly on a '
+                'missing path refused before a backend exists, open path writes only what is absent, and every file-mutating HDF5 '
+                'call has its result checked so that a refusal by libhdf5 (read-only file) becomes an exception. Byte identity and '
+                'content preservation themselves are libhdf5 behaviour: not decided.',
+    },
+    'C11': {
+        'technique': 'static analysis: must-pass-through (post-dominance) and who-may-call rules on FileHDF5::flush/close and '
+                     'File::close; error-result consumption rule',
+        'text': 'Decides the close/flush clauses visible in code shape: flush = H5Fflush(file id, global scope) returning its negated '
+                'error; close closes the root handles, enumerates open groups/datasets/datatypes, closes each id ref-count times and '
+                'then the file id on every path; File::close drops the backend pointer, all File members go through backend() '
+                '(throws when empty); mutating HDF5 results are checked. Durability against SIGKILL / what libhdf5 has written is a '
+                'crash-point property outside static reach: NOT decided (partial claim).',
+    },
 }
 
 _NYI = 'check not built yet in this session (planned in DESIGN.md); not claimed until its rule runs and is validated'
